@@ -36,6 +36,7 @@ def main():
     ap.add_argument("--tier", default="quick")
     ap.add_argument("--keep", default=None)
     ap.add_argument("--skip-suite", action="store_true")
+    ap.add_argument("--root", default="seeded", help="directory under /verif that --keep stores into (seeded | benign)")
     a = ap.parse_args()
     src = os.path.abspath(a.src)
     patch = os.path.join(src, "patch.diff")
@@ -92,7 +93,7 @@ def main():
                 if fired:
                     break
         if a.keep:
-            dst = os.path.join(VERIF, "seeded", a.keep)
+            dst = os.path.join(VERIF, a.root, a.keep)
             os.makedirs(dst, exist_ok=True)
             for f in os.listdir(src):
                 p = os.path.join(src, f)
